@@ -12,6 +12,7 @@ import (
 	"path/filepath"
 	"sort"
 	"strconv"
+	"sync"
 	"time"
 
 	"github.com/nspcc-dev/neofs-node/pkg/local_object_storage/blobstor/fstree"
@@ -61,9 +62,27 @@ type dumpOut struct {
 	Bytes int    `json:"bytes"`   // stream length
 }
 
-var errAbsurdRead = errors.New("verif: read size far beyond the stream length")
+var errFramingLost = errors.New("verif: the restore lost the record framing")
+
+// framed tells whether a request for k bytes at the current position is what a reader of the dump
+// format asks for: the rest of the magic, of a length field, or of a record's data.
+func (r *chunkReader) framed(k int) bool {
+	if r.pos < 4 {
+		return k == 4-r.pos
+	}
+	for _, f := range r.frames {
+		if r.pos >= f.lenOff && r.pos < f.dataOff {
+			return k == f.dataOff-r.pos
+		}
+		if r.pos >= f.dataOff && r.pos < f.dataOff+f.n {
+			return k == f.dataOff+f.n-r.pos
+		}
+	}
+	return true
+}
 
 type chunkReader struct {
+	frames  []frame
 	data    []byte
 	pos     int
 	cuts    []int // sorted absolute offsets at which a Read call stops
@@ -79,10 +98,10 @@ func (r *chunkReader) Read(p []byte) (int, error) {
 	if len(p) == 0 {
 		return 0, nil
 	}
-	if len(p) > 1<<26 {
-		// only a restore that lost the framing asks for this much (it took object bytes for a record
-		// length and allocated that buffer): stop it here instead of letting it go on for gigabytes
-		return 0, errAbsurdRead
+	if !r.framed(len(p)) {
+		// The restore has lost the framing (after a short read it takes object bytes for a record
+		// length and allocates that much - up to 4 GiB). Stop it before the next garbage length.
+		return 0, errFramingLost
 	}
 	end := len(r.data)
 	for _, c := range r.cuts {
@@ -120,21 +139,21 @@ func newShardAt(root string, wc bool) *shard.Shard {
 
 type frame struct{ lenOff, dataOff, n int }
 
-func parseDump(b []byte) []frame {
+func parseDump(b []byte) ([]frame, bool) {
 	if len(b) < 4 || string(b[:4]) != "NEOF" {
-		panic("dump without magic")
+		return nil, false
 	}
 	var fr []frame
 	off := 4
-	for off < len(b) {
+	for off+4 <= len(b) {
 		n := int(binary.LittleEndian.Uint32(b[off:]))
+		if n < 3 || off+4+n > len(b) {
+			return fr, false
+		}
 		fr = append(fr, frame{off, off + 4, n})
 		off += 4 + n
 	}
-	if off != len(b) {
-		panic("dump framing broken")
-	}
-	return fr
+	return fr, off == len(b)
 }
 
 // unitEnds returns the absolute end offset of every unit of the abstract stream.
@@ -192,19 +211,30 @@ func runDumpCase(root string, in *dumpIn, r *rand.Rand, idx int) dumpOut {
 	kit.Must(err)
 	kit.Must(src.Close())
 	stream := buf.Bytes()
-	fr := parseDump(stream)
-	if cnt != in.N || len(fr) != in.N {
-		panic(fmt.Sprintf("dump wrote %d records (%d frames) for %d objects", cnt, len(fr), in.N))
-	}
-	// stream index -> address / bytes
+	// C46, first half: the dump holds exactly the stored objects, byte for byte
+	fr, ok := parseDump(stream)
 	addrs := make([]oid.Address, len(fr))
+	seen := map[oid.Address]bool{}
+	if ok && (cnt != in.N || len(fr) != in.N) {
+		ok = false
+	}
 	for i, f := range fr {
-		o := new(object.Object)
-		kit.Must(o.Unmarshal(stream[f.dataOff : f.dataOff+f.n]))
-		addrs[i] = o.Address()
-		if !bytes.Equal(byAddr[addrs[i]], stream[f.dataOff:f.dataOff+f.n]) {
-			panic("dumped bytes differ from the stored object") // C46 first half: checked below through the restore too
+		if !ok {
+			break
 		}
+		o := new(object.Object)
+		if o.Unmarshal(stream[f.dataOff:f.dataOff+f.n]) != nil {
+			ok = false
+			break
+		}
+		addrs[i] = o.Address()
+		if seen[addrs[i]] || !bytes.Equal(byAddr[addrs[i]], stream[f.dataOff:f.dataOff+f.n]) {
+			ok = false
+		}
+		seen[addrs[i]] = true
+	}
+	if !ok {
+		return dumpOut{Res: "baddump", Count: cnt, Restored: []int{}, Err: fmt.Sprintf("dump of %d objects: %d records reported, %d framed", in.N, cnt, len(fr)), Bytes: len(stream)}
 	}
 	for _, c := range in.Corrupt {
 		f := fr[c-1]
@@ -237,7 +267,7 @@ func runDumpCase(root string, in *dumpIn, r *rand.Rand, idx int) dumpOut {
 		}
 	}
 	sort.Ints(cuts)
-	rd := &chunkReader{data: stream, cuts: cuts, eofdata: in.EofData}
+	rd := &chunkReader{frames: fr, data: stream, cuts: cuts, eofdata: in.EofData}
 	// ---- destination shard
 	dst := newShardAt(filepath.Join(dir, "dst"), idx%3 == 1)
 	okN, failN, rerr := dst.Restore(rd, in.Ignore)
@@ -365,7 +395,9 @@ func dumpMain(args []string) {
 		c.RawCuts = nil
 		cases = append(cases, c)
 	}
-	w := kit.NewW(args[1])
+	outs := make([]dumpOut, len(cases))
+	sem := make(chan struct{}, 8)
+	var wg sync.WaitGroup
 	for i := range cases {
 		c := &cases[i]
 		c.WC = i%2 == 1
@@ -375,22 +407,22 @@ func dumpMain(args []string) {
 		if c.Cuts == nil {
 			c.Cuts = []int{}
 		}
-		t0 := time.Now()
-		out := runDumpCase(root, c, r, i)
-		if d := time.Since(t0); d > 2*time.Second {
-			fmt.Fprintf(os.Stderr, "slow case %d: %v in=%+v out=%+v\n", i, d, *c, out)
-		}
-		if c.RawCuts != nil {
-			// keep only the offsets inside the stream (replay uses them)
-			var rc []int
-			for _, o := range c.RawCuts {
-				if o < out.Bytes {
-					rc = append(rc, o)
-				}
+		wg.Add(1)
+		sem <- struct{}{}
+		go func() {
+			defer wg.Done()
+			defer func() { <-sem }()
+			t0 := time.Now()
+			outs[i] = runDumpCase(root, c, kit.Rand(4600+int64(i)), i)
+			if d := time.Since(t0); d > 20*time.Second {
+				fmt.Fprintf(os.Stderr, "slow case %d: %v in=%+v out=%+v\n", i, d, *c, outs[i])
 			}
-			c.RawCuts = rc
-		}
-		w.Emit(kit.M{"in": c, "out": out})
+		}()
+	}
+	wg.Wait()
+	w := kit.NewW(args[1])
+	for i := range cases {
+		w.Emit(kit.M{"in": cases[i], "out": outs[i]})
 	}
 	w.Close()
 }
